@@ -241,16 +241,18 @@ func c19(c *Ctx) {
 		})
 		var bad []string
 		for _, ret := range reach.Returns() {
-			v := ret.Results[0]
-			if call, _ := an.ResultOfCall(v); call != nil {
-				if sn := an.ShortCallee(&call.Call); sn == "NewStatus" || sn == "AsStatus" {
+			for _, alt := range reach.Alts(ret) {
+				v := alt.Results[0]
+				if call, _ := an.ResultOfCall(v); call != nil {
+					if sn := an.ShortCallee(&call.Call); sn == "NewStatus" || sn == "AsStatus" {
+						continue
+					}
+				}
+				if reach.EvalAt(v, ret) == an.NonNil {
 					continue
 				}
+				bad = append(bad, c.InstrPos(ret))
 			}
-			if reach.EvalAt(v, ret) == an.NonNil {
-				continue
-			}
-			bad = append(bad, c.InstrPos(ret))
 		}
 		r.Check(len(facts) >= 3 && len(bad) == 0, "PATH", fkey(f)+"/success=>"+x.setter, c.Pos(f.Pos()), "a successful pre-bind always persists the accounted allocation", sprintf("preBindObject can succeed (return at %s) without %s although the cycle state holds an allocation (%d preconditions recognised): after a restart the ledgers are rebuilt from something else than what was accounted", strings.Join(bad, ","), x.setter, len(facts)))
 	}
